@@ -532,10 +532,55 @@ fn invalid_utf8(g: &mut Gen, st: &mut Stats) -> CaseResult {
     Ok(())
 }
 
+/// C strings carry an invariant the data-model comparison cannot see: exactly one NUL, at the end. Every byte string over
+/// {NUL, 'a', 0xff} with <= 7 bytes, at every head width and chunked, is offered to the owned and the borrowed targets:
+/// Ok exactly for the C-string-shaped ones (definite only), with the same bytes and a value that upholds the invariant.
+fn cstr_shapes(i: u64, st: &mut Stats) -> CaseResult {
+    use std::borrow::Cow;
+    use std::ffi::{CStr, CString};
+    st.eval();
+    // index -> (length, digits base 3, framing)
+    let framing = (i % 6) as usize;
+    let mut k = i / 6;
+    let mut len = 0usize;
+    let mut span = 1u64;
+    while k >= span { k -= span; len += 1; span *= 3; if len > 7 { return Ok(()) } }
+    let mut bytes = Vec::with_capacity(len);
+    for _ in 0 .. len { bytes.push([0u8, b'a', 0xff][(k % 3) as usize]); k /= 3 }
+    let shaped = bytes.last() == Some(&0) && !bytes[.. bytes.len() - 1].contains(&0);
+    let item = match framing { 0 => Item::Bytes(bytes.clone(), W::min_for(len as u64)), 1 => Item::Bytes(bytes.clone(), W::W1), 2 => Item::Bytes(bytes.clone(), W::W2), 3 => Item::Bytes(bytes.clone(), W::W4), 4 => Item::Bytes(bytes.clone(), W::W8),
+                                      _ => Item::BytesIndef(vec![(bytes[.. len / 2].to_vec(), W::min_for((len / 2) as u64)), (bytes[len / 2 ..].to_vec(), W::min_for((len - len / 2) as u64))]) };
+    let mut enc = item.encode();
+    let ilen = enc.len();
+    enc.push(0x00);
+    let definite = framing != 5;
+    macro_rules! target { ($name:expr, $t:ty, |$v:ident| $as_bytes:expr) => {{
+        let mut d = Decoder::new(&enc);
+        match d.decode::<$t>() {
+            Ok($v) => {
+                let got: &[u8] = $as_bytes;
+                ensure!(shaped, "cstr-accepted", "{} accepted the byte string {} which is not shaped like a C string (decoded {:?})", $name, short_hex(&enc[.. ilen]), got);
+                ensure!(got == &bytes[..], "wrong-value", "{} decoded {} to {:?}", $name, short_hex(&enc[.. ilen]), got);
+                ensure!(d.position() == ilen, "position", "{} on {}: position {} != {}", $name, short_hex(&enc[.. ilen]), d.position(), ilen);
+            }
+            Err(_) => ensure!(!(shaped && definite), "rejected-match", "{} rejected the C-string-shaped byte string {}", $name, short_hex(&enc[.. ilen]))
+        }
+    }}}
+    target!("&CStr", &CStr, |v| v.to_bytes_with_nul());
+    target!("CString", CString, |v| v.as_bytes_with_nul());
+    target!("Cow<CStr>", Cow<CStr>, |v| v.to_bytes_with_nul());
+    if shaped { st.nontrivial_enum(1) }
+    st.class(if shaped { "cstr/shaped" } else if bytes.contains(&0) { "cstr/misplaced NUL" } else { "cstr/no NUL" });
+    if i % 1999 == 0 { st.sample(i, || format!("{} as &CStr / CString / Cow<CStr>: {}", short_hex(&enc[.. ilen]), if shaped && definite { "must decode" } else { "must be refused" })) }
+    Ok(())
+}
+
 pub fn subs() -> Vec<Sub> {
     let n3 = space_len(3);
     let n4 = space_len(4);
     vec![
+        Sub { prop: "C04", name: "cstr-shapes", rule: "every byte string of <= 7 bytes over {NUL, 'a', 0xff} x 5 head widths + chunked, decoded as &CStr, CString, Cow<CStr>: accepted exactly when the bytes are C-string shaped (one NUL, at the end) and the string is definite; same bytes, exact position",
+              kind: Kind::Enumerate { quick: 6 * 3280, thorough: 6 * 3280, f: cstr_shapes, complete_quick: true, complete_thorough: true } },
         Sub { prop: "C04", name: "small-trees-3", rule: "every item tree with <= 3 nodes over 38 leaf representatives x definite/indefinite containers x every head-width assignment, through every Decoder accessor (value, position, borrow), datatype, Size, probe, skip, and every strict prefix through the matching accessor; non-trivial = non-preferred framing or >= 2 nodes",
               kind: Kind::Enumerate { quick: n3, thorough: n3, f: small3, complete_quick: true, complete_thorough: true } },
         Sub { prop: "C04", name: "small-trees-4", rule: "same with <= 4 nodes (thorough; quick explores the first 1000000 indices)",
